@@ -25,7 +25,9 @@ CHECKS = {
     "C05": ("versioning", "TLA+ state machine of new_version/revoke with the clock as environment-chosen argument; TLC exhaustive; case-table replay + trace validation",
             "TLC explores every clock reading (earlier/equal/sub-precision/later) x operation x change set on chains and branches of versions of objects and dicts of both spec versions and "
             "checks chain monotonicity of serialized times, identity preservation, exact changes, revoked-terminal, immutability. Every one-step case TLC computes is replayed on real objects "
-            "with the clock substituted, and long random histories over all versionable types are validated line by line by the trace spec.",
+            "with the clock substituted, and long random histories over all versionable types are validated line by line by the trace spec. The repository's own test-suite, recorded from "
+            "outside by harness/record_plugin.py, is a further driver: every new_version / revoke call its tests make on a versionable object or dictionary is projected onto the object "
+            "record (changed properties in slots, the rest as one digest, instants compressed order- and millisecond-preserving) and validated by the same trace spec (stage S3b).",
             "Trusted: clock substitution through stix2.versioning.get_timestamp; projection in harness/impl_versioning.py. Times relative to a base instant within 2^31 us.",
             "DESIGN.md §3.2"),
     "C16": ("canonjson", "TLA+ transcription of RFC 8785 (UTF-16 key order, escapes, ES6 number layout) with a JSON reader; TLC exhaustive over small values; table replay + trace validation",
@@ -169,7 +171,7 @@ def build():
             "guard": "STIX2_VERIF_TRACE",
             "enable": "no source hooks in /repo. The only instrumentation is /verif/harness/record_plugin.py, loaded from outside into a run of the repository's own tests "
                       "(cd /repo && STIX2_VERIF_TRACE=<dir> PYTHONPATH=/verif pytest -p harness.record_plugin ...): it wraps public callables at import time and writes one NDJSON "
-                      "file per trace specification; without the guard variable it does nothing. Stages S3b of C13, C15, C16 and C20 run it.",
+                      "file per trace specification; without the guard variable it does nothing. Stages S3b of C05, C13, C15, C16 and C20 run it.",
             "baseline_off_cmd": "cd /repo && /venv/bin/python -m pytest -ra -q -p no:cacheprovider --timeout=900 --continue-on-collection-errors",
             "source_commits": [],
             "add_only": True,
